@@ -122,6 +122,29 @@ def _class_scope(tree, cls, side, depth=0):
     return out
 
 
+def _called(f):
+    out = set()
+    for n in ast.walk(f):
+        if isinstance(n, ast.Call):
+            if isinstance(n.func, ast.Name):
+                out.add(n.func.id)
+            elif isinstance(n.func, ast.Attribute) and isinstance(n.func.value, ast.Name) and n.func.value.id == 'self':
+                out.add('self.' + n.func.attr)
+    return out
+
+
+def _own(funcs, cls, names):
+    """qualified names (keys of the owner map) of module-level functions / methods of the same class among the called names"""
+    out = []
+    for n in sorted(names):
+        if n.startswith('self.'):
+            if cls is not None and f'{cls.name}.{n[5:]}' in funcs:
+                out.append(f'{cls.name}.{n[5:]}')
+        elif n in funcs and funcs[n][2] is None:
+            out.append(n)
+    return out
+
+
 def canonical_pair(f, cls, rf, cls_r, new_helpers, gone_helpers, cur_consts, ref_consts, cur_props=None, ref_props=None, cur_tree=None, ref_tree=None):
     s1 = equiv.sized_chains(_class_scope(cur_tree, cls, 'cur') if cls is not None else []) | {c for c in equiv.sized_chains([f]) if c[0] != 'self'}
     s2 = equiv.sized_chains(_class_scope(ref_tree, cls_r, 'ref') if cls_r is not None else []) | {c for c in equiv.sized_chains([rf]) if c[0] != 'self'}
@@ -154,6 +177,18 @@ def apply(cur_tree, ref_tree, prepare):
         if [ast.dump(d) for d in f.decorator_list] != [ast.dump(d) for d in rf.decorator_list]:
             continue
         c1, c2 = canonical_pair(f, cls, rf, ref[q][2], new_helpers, gone_helpers, cur_consts, ref_consts, cur_props, ref_props, cur_tree, ref_tree)
+        if c1 is not None and c2 is not None and c1 != c2:
+            # a duplicated block replaced by a call to a function that exists in both versions (or the reverse): paste the
+            # functions that only one of the two versions of this function calls, each from its own tree
+            called_c, called_r = _called(f), _called(rf)
+            only_c = _helper_table(cur, [x for x in _own(cur, cls, called_c - called_r) if x in ref and x != q])
+            only_r = _helper_table(ref, [x for x in _own(ref, ref[q][2], called_r - called_c) if x in cur and x != q])
+            if only_c or only_r:
+                h1 = dict(new_helpers)
+                h1.update(only_c)
+                h2 = dict(gone_helpers)
+                h2.update(only_r)
+                c1, c2 = canonical_pair(f, cls, rf, ref[q][2], h1, h2, cur_consts, ref_consts, cur_props, ref_props, cur_tree, ref_tree)
         if c1 is None or c2 is None or c1 != c2:
             continue
         new_body = copy.deepcopy(rf.body)
